@@ -21,6 +21,7 @@ import (
 // progCase is a history of programs evaluated on one runner.
 type progCase struct {
 	Programs []*ref.Node `json:"programs"`
+	NoMap    bool        `json:"nomap,omitempty"` // the runner never gets a data map: locals live in a map it creates itself
 }
 
 func c07Spec() map[string]spec.V {
@@ -51,6 +52,10 @@ func checkProgs(c progCase) (msg string, unspec bool) {
 	refs := map[string]interface{}{"m": data["m"], "m.in": data["m"].(map[string]interface{})["in"], "s": data["s"], "d": data["d"], "this": data, "rec": data["rec"]}
 	env := &miniEnv{store: map[string]mv{}, data: c07ModelData()}
 	r := formula.NewRunner()
+	if c.NoMap {
+		env.data = map[string]mv{}
+		return checkProgsNoMap(c, r, env)
+	}
 	r.SetThis(data)
 	for pi, prog := range c.Programs {
 		text := prog.Text()
@@ -262,12 +267,16 @@ func TestC07Model(t *testing.T) {
 			c.Programs = append(c.Programs, p)
 			texts = append(texts, p.Text())
 		}
+		c.NoMap = rapid.IntRange(0, 5).Draw(rt, "nomap") == 0
 		msg, unspec := checkProgs(c)
 		if unspec {
 			run.Class("unspecified-skipped")
 			return
 		}
 		key := strings.Join(texts, " ;; ")
+		if c.NoMap {
+			key = "nomap: " + key
+		}
 		run.CountKey(key, progNontrivial(c), fmt.Sprintf("history%d", n))
 		run.Sample(fmt.Sprintf("history%d", n), key)
 		if msg != "" {
@@ -430,4 +439,44 @@ func TestC07FrameGrid(t *testing.T) {
 		}
 	}
 	run.Exhaustive()
+}
+
+// checkProgsNoMap: the same model on a runner without a caller map (results only;
+// programs that call rec are outside the model there).
+func checkProgsNoMap(c progCase, r *formula.Runner, env *miniEnv) (string, bool) {
+	for pi, prog := range c.Programs {
+		text := prog.Text()
+		p := obs.Parse([]byte(text))
+		if !p.OK() {
+			return fmt.Sprintf("HARNESS: program %q does not parse: %v", text, p.Err), false
+		}
+		usesRec := false
+		prog.Walk(func(n *ref.Node) {
+			if n.Kind == "id" && n.Val == "rec" {
+				usesRec = true
+			}
+		})
+		if usesRec {
+			return "", true
+		}
+		want, wantErr := env.eval(prog)
+		if env.unspec {
+			return "", true
+		}
+		out := obs.Eval(r, context.Background(), p.Src.Expression)
+		where := fmt.Sprintf("evaluation %d %q on a runner without a data map", pi+1, text)
+		if out.Panic != nil {
+			return fmt.Sprintf("%s panicked: %v", where, out.Panic), false
+		}
+		if wantErr {
+			if out.Err == nil {
+				return fmt.Sprintf("%s = %s, want an error", where, obs.Show(out.Val)), false
+			}
+			return "", false
+		}
+		if out.Err != nil || !mvMatches(out.Val, want, map[string]interface{}{}, true) {
+			return fmt.Sprintf("%s -> %s, the reference evaluation gives %s", where, out, want), false
+		}
+	}
+	return "", false
 }
